@@ -530,3 +530,30 @@ PROPS["C19"] = dict(
         technique="property-based testing (rapid) of start-up verdicts via a probe binary + exhaustive enumeration of colours",
     ),
 )
+
+PROPS["C08"] = dict(
+    pkg="c08",
+    race=True,
+    level="exploration",
+    rule=("binary built with the Go race detector (a report ends the process and is attributed to the journalled case). (Stress) "
+          "C07's worlds with per-target response latencies of 0..8 ms derived from a generated seed, a start-up command, 3..40 keys "
+          "(keymap keys, digits, '.', Enter, Esc, Backspace, ':feed name' typed out) each issued in its own goroutine after a generated "
+          "pause of 0..20 ms as main does, and a resize poller with a period of 1..25 ms cycling through 2..5 sizes. Oracles: no race "
+          "report; the output callback is never active twice at once; every Update returns and the UI reaches quiescence within 30 s "
+          "of the last key. (Fanout) 2..6 goroutines concurrently build, render, page and splice the same objects of a world. "
+          "Non-trivial: at least five keys and more than five frames / at least two workers. Distinct = distinct stimulus. The "
+          "schedule itself is not owned by the harness: this finds unsynchronised access pairs that occur, not every interleaving."),
+    units=[
+        rapid("Stress", "TestStress", 400, 16000, shards=(8, 16), config_toml=_NET, timeout=dict(quick=600, thorough=3000), flaky_ok=True),
+        rapid("Fanout", "TestFanout", 160, 6000, shards=(4, 8), config_toml=_NET, timeout=dict(quick=600, thorough=3000), flaky_ok=True),
+    ],
+    manifest=dict(
+        text=("Generated concurrent stimulus (keys from one goroutine each, resize poller, randomised latencies) under the Go race "
+              "detector plus a frame-overlap detector and a progress watchdog. The race detector flags unsynchronised access pairs "
+              "that occur in a run even when they do not collide; interleavings are sampled, not enumerated."),
+        design_ref="DESIGN.md §3 C08",
+        note=("Trusted: the Go race detector. Limits: an ordering bug that leaves no unsynchronised access and needs a specific "
+              "interleaving can be missed; deadlock freedom is a bounded-wait observation."),
+        technique="property-based generation of concurrent stimulus (rapid) under the Go race detector with overlap and progress oracles",
+    ),
+)
